@@ -176,8 +176,12 @@ fn gen_string(rng: &mut Rng) -> String {
             (0..n).map(|_| rng.pick(STRS).to_string()).collect()
         }
         _ => {
-            // long
-            let n = 200 + rng.below(400) as usize;
+            // long; now and then longer than a u16 can count
+            let n = if rng.chance(1, 50) {
+                65_530 + rng.below(40) as usize
+            } else {
+                200 + rng.below(400) as usize
+            };
             (0..n)
                 .map(|i| if i % 37 == 5 { 'é' } else { char::from(b'A' + (i % 26) as u8) })
                 .collect()
@@ -289,11 +293,27 @@ fn gen_value(rng: &mut Rng, depth: u32) -> Value {
             .collect();
         let n = match rng.below(20) {
             0 => 0,
-            1 => 40 + rng.below(300) as usize,
+            1 => {
+                if rng.chance(1, 40) {
+                    65_530 + rng.below(40) as usize // more than a u16 can count
+                } else {
+                    40 + rng.below(300) as usize
+                }
+            }
             _ => rng.below(6) as usize,
         };
         // big arrays hold scalars of one kind (as real arrays do), small ones anything
-        let elements = if n >= 40 {
+        let elements = if n >= 1000 {
+            let kind = rng.below(4);
+            (0..n)
+                .map(|i| match kind {
+                    0 => Value::Bool(i % 3 == 0),
+                    1 => Value::Int(i as i16),
+                    2 => Value::Null,
+                    _ => Value::USInt(i as u8),
+                })
+                .collect()
+        } else if n >= 40 {
             let proto = gen_scalar(rng);
             (0..n)
                 .map(|_| {
@@ -590,7 +610,15 @@ fn mutate(rng: &mut Rng, bytes: &mut Vec<u8>, marks: &[Mark], out: &mut Out) {
                 }
             }
             _ => {
-                out.count("mut:none");
+                let cands: Vec<&Mark> = marks.iter().filter(|m| matches!(m, Mark::Bool(_))).collect();
+                if let Some(Mark::Bool(o)) = (!cands.is_empty()).then(|| **rng.pick(&cands)) {
+                    if o < bytes.len() {
+                        bytes[o] = *rng.pick(&[2u8, 3, 255, 128, 0x10, 0xFE]);
+                        out.count("mut:bool");
+                    }
+                } else {
+                    out.count("mut:none");
+                }
             }
         }
     }
@@ -797,10 +825,17 @@ fn corpus(idx: u64, deep_levels: usize) -> Option<(&'static str, Vec<u8>)> {
         }
         4 => Some(("empty-file", vec![])),
         5 => Some(("header-only", header(0))),
+        6 => Some(("golden-v1", crate::util::unhex(GOLDEN_V1_HEX))),
         _ => None,
     }
 }
-const CORPUS_LEN: u64 = 6;
+const CORPUS_LEN: u64 = 7;
+
+/// A hand-assembled STRN v1 image with one value of each of the 31 tags (literal tag numbers,
+/// independent of the encoder under test) and what `load` must return for it: files written by
+/// earlier builds stay readable as long as RETAIN_VERSION is 1.
+const GOLDEN_V1_HEX: &str = "5354524e01001f000000030000007630310101030000007630320280030000007630330334120300000076303404efcdab89030000007630350501000000000000800300000076303606ff0300000076303707feff0300000076303808feffffff0300000076303909feffffffffffffff030000007631300a0100c07f030000007631310b0000000000000080030000007631320ca5030000007631330d5aa5030000007631340eefbeadde030000007631350fefcdab8967452301030000007631361000ffffffffffffff03000000763137110e94357700000000030000007631381202ffffffffffffff03000000763139131c286bee00000000030000007632301404ffffffffffffff03000000763231152abca06501000000030000007632321606ffffffffffffff03000000763233173850d6dc0100000003000000763234180600000068c3a96c6c6f030000007632351907000000e282acf09f9880030000007632361ae9030000007632371bac20030000007632381c0200000001000000ffffffffffffffff0100000000000000030100030200030000007632391d05000000504f494e54020000000100000078040700000001000000791f030000007633301e05000000434f4c4f5203000000524544feffffffffffffff030000007633311f";
+const GOLDEN_V1_TEXT: &str = "ok 31 763031 bool 1 763032 sint 128 763033 int 4660 763034 dint 2309737967 763035 lint 9223372036854775809 763036 usint 255 763037 uint 65534 763038 udint 4294967294 763039 ulint 18446744073709551614 763130 real 2143289345 763131 lreal 9223372036854775808 763132 byte 165 763133 word 42330 763134 dword 3735928559 763135 lword 81985529216486895 763136 time 18446744073709551360 763137 ltime 2000000014 763138 date 18446744073709551362 763139 ldate 4000000028 763230 tod 18446744073709551364 763231 ltod 6000000042 763232 dt 18446744073709551366 763233 ldt 8000000056 763234 string 68c3a96c6c6f 763235 wstring e282acf09f9880 763236 char 233 763237 wchar 8364 763238 array 1 18446744073709551615 1 2 int 1 int 2 763239 struct 504f494e54 2 78 dint 7 79 null 763330 enum 434f4c4f52 524544 18446744073709551614 763331 null";
 
 // ------------------------------------------------------------------------------------------------
 // child: decode arbitrary bytes under RLIMIT_AS
@@ -1370,6 +1405,9 @@ pub fn run(args: &Args) -> i32 {
             let (name, bytes) = corpus(n, deep_levels).unwrap();
             out.count(&format!("corpus:{name}"));
             do_dec(&bytes, &mut dec, &mut out);
+            if name == "golden-v1" {
+                out.line(format!("# golden {GOLDEN_V1_TEXT}"));
+            }
             out.line("tag nontrivial corpus");
         } else if n < CORPUS_LEN + crash_cases {
             match do_crash(n, &rig, &mut out) {
